@@ -484,3 +484,97 @@ Definition wf_xmib (s : schema) (c : cas) (all : list (xid * oid)) : bool :=
   && nodups (map (fun v => s_name (v_sofa v)) (c_views c))
   && forallb (view_okb c ids) (c_views c)
   && forallb (fs_okb s c ids) all.
+
+(* ---- well-formedness of the INPUT CAS (DESIGN.md section 4.4 wf_casb) ----
+   Everything below is checked on the CAS as given, before the traversal: per object the local shape of its slots (the
+   `*_inb` predicates are fs_okb / feat_okb / value_okb with "the target has an id that is written" replaced by "the
+   target is a live object"), plus the facts about ids that no traversal can repair.  What wf_xmib says about the written
+   set (closure, every written structure has its id, ids pairwise distinct and apart from sofa ids and 0, references of
+   written structures point to written structures) is DERIVED from these and ReachProofs in XmiWf.v (wf_written). *)
+(* only the sofa feature of AnnotationBase is called sofa (python and document name), and it is written by the sofa branch *)
+Definition sofa_decl_okb (s : schema) (fd : fdecl) : bool :=
+  if String.eqb (fd_name fd) "sofa" || String.eqb (fd_xname fd) "sofa"
+  then String.eqb (fd_name fd) "sofa" && String.eqb (fd_xname fd) "sofa" && match wbranch s fd with WSofa => true | _ => false end
+  else true.
+Definition value_inb (s : schema) (c : cas) (fd : fdecl) (v : val) : bool :=
+  let h := c_heap c in
+  match wbranch s fd with
+  | WFsArr =>
+    match v with
+    | VRef a => match hget h a with
+                | Some af => has_feat s (o_type af) "elements"
+                             && match slot af "elements" with VList l => forallb (okval h) l | _ => false end
+                | None => false
+                end
+    | _ => false
+    end
+  | WFsList => match list_elems_of s h (fd_range fd) v with Ok l => forallb (okval h) l | _ => false end
+  | WRef => match v with VRef o => live h o | _ => false end
+  | _ => value_okb s c [] fd v                (* no reference involved: the id list is not consulted *)
+  end.
+Definition feat_inb (s : schema) (c : cas) (tn : tname) (f : fsobj) (fd : fdecl) : bool :=
+  negb (memb (fd_name fd) ["xmiID"; "type"]) && kind_agreeb s fd && sofa_decl_okb s fd &&
+  let v := slot f (fd_name fd) in
+  match v with
+  | VNone => true
+  | _ => value_inb s c fd v && offset_okb s c tn f fd v
+  end.
+Definition array_elem_inb (tn : tname) (h : heap) (v : val) : bool :=
+  if String.eqb tn T_STRING_ARRAY then str_or_none v
+  else if String.eqb tn T_FS_ARRAY then okval h v
+  else prim_elem_okb tn v.
+Definition obj_inb (s : schema) (c : cas) (f : fsobj) : bool :=
+  let tn := o_type f in
+  tname_okb tn &&
+  match sch_find s tn with
+  | None => false
+  | Some ti =>
+    nodups (map fd_xname (ti_feats ti)) && negb (memb A_ID (map fd_xname (ti_feats ti))) &&
+    (* only the built-in array types derive from ArrayBase: the traversal and the writer agree on what an array is *)
+    match is_array_type ti with Ok b => Bool.eqb b (is_array_name tn) | _ => false end &&
+    if is_array_name tn then
+      forallb (fun fd => String.eqb (fd_name fd) (fd_xname fd) && negb (inline_fd fd)) (ti_feats ti) &&
+      memb "elements" (map fd_xname (ti_feats ti)) &&
+      Bool.eqb (isa s tn T_STRING_ARRAY) (String.eqb tn T_STRING_ARRAY) &&
+      match slot f "elements" with
+      | VNone => true
+      | VList l => forallb (array_elem_inb tn (c_heap c)) l
+      | _ => false
+      end &&
+      forallb (fun fd => String.eqb (fd_xname fd) "elements" || match slot f (fd_name fd) with VNone => true | _ => false end)
+              (ti_feats ti)
+    else forallb (feat_inb s c tn f) (ti_feats ti) &&
+         (if isa s tn T_ANNOTATION
+          then existsb (fun fd => String.eqb (fd_name fd) "sofa" && String.eqb (fd_xname fd) "sofa"
+                                  && match wbranch s fd with WSofa => true | _ => false end) (ti_feats ti)
+          else true)
+  end.
+(* a view: the text is encodable, the sofa array (if any) is a live primitive array (sofa data is bytes, not structures) *)
+Definition view_inb (c : cas) (v : cview) : bool :=
+  let so := v_sofa v in
+  match s_arr so with
+  | Some o => match hget (c_heap c) o with Some f => is_prim_array_name (o_type f) | None => false end
+  | None => true
+  end
+  && match s_text so with Some t => text_okb t | None => true end.
+Definition wf_casb (s : schema) (c : cas) : bool :=
+  let h := c_heap c in
+  let sofa_ids := map (fun v => s_xid (v_sofa v)) (c_views c) in
+  (0 <? c_next_id c)
+  (* Reach: every value the traversal considers is None or a live reference; members are live; explicit ids are pairwise
+     distinct and below the id generator (or nothing is left to generate) *)
+  && wf_heapb false s h && seeds_liveb h (member_seeds c) && ids_okb h (c_next_id c)
+  (* no structure claims the id of cas:NULL *)
+  && forallb (fun p => negb (is_null_id (snd p))) h
+  (* sofa ids: distinct, not 0, below the generator, not the explicit id of a structure *)
+  && nodupZ sofa_ids
+  && forallb (fun i => negb (i =? 0) && (i <? c_next_id c) && negb (memZ i (explicit_ids h))) sofa_ids
+  && nodups (map (fun v => s_name (v_sofa v)) (c_views c))
+  && forallb (view_inb c) (c_views c)
+  && forallb (fun p => obj_inb s c (snd p)) h.
+(* only subtypes of AnnotationBase have a feature called sofa (Cas.add overwrites any attribute of that name: a declared
+   precondition of the library), and a feature of that name is the sofa reference *)
+Definition type_sofa_okb (s : schema) (tn : tname) : bool :=
+  forallb (fun fd => sofa_decl_okb s fd && (negb (String.eqb (fd_xname fd) "sofa") || isa s tn T_ANNOTATION_BASE)) (sch_feats s tn).
+Definition wf_inb (s : schema) (c : cas) : bool :=
+  wf_casb s c && forallb (fun p => type_sofa_okb s (o_type (snd p))) (c_heap c).
